@@ -40,7 +40,9 @@ TOK = ['a', 'A', 'and', 'a(', 'and(', 'not(', 'var(', 'rgb(', 'calc(', 'url(', '
        # as escapes, a character outside the BMP, control characters
        '\\D800 ', '\\110000 ', '\U0001d11e', '\x01', '\x7f', '"\\DFFF "',
        # identifiers that *are* a delimiter once their escape is decoded
-       '\\7d ', '\\7b ', '\\3b ', '\\28 ', '\\22 ']
+       '\\7d ', '\\7b ', '\\3b ', '\\28 ', '\\22 ',
+       # a namespace prefix that holds an escaped pipe; an escaped pipe on its own
+       'a\\|b|', 'a\\7c b|', '\\|']
 CORE = ['\\D800 ', '\\7d ', 'a', 'a(', 'and(', 'var(', 'rgb(', 'calc(', 'url(', '@x', '@media', '@import', '@charset ', '{', '}', '(', ')', '[', ';', ':', ',', '!',
         '"s"', '"u', '1px', '#f00', '/*c*/', '/*', '<!--', ' ', '\\', '*']
 CORE4 = ['a', 'a(', 'var(', 'calc(', 'url(', '@x', '@media', '{', '}', '(', ')', '[', ';', ':', ',', '!', '"u', '1px', '/*c*/', '/*']
